@@ -21,8 +21,9 @@ from typing import Any, Callable, Dict, Iterable, List, Optional
 
 VERIF = Path(__file__).resolve().parent.parent
 REPO = Path(os.environ.get("VERIF_REPO", "/repo")).resolve()
-EVIDENCE_DIR = VERIF / "evidence"
-REPLAY_DIR = EVIDENCE_DIR / "replay"
+# runs against a patched scratch copy (VERIF_REPO=...) are self-tests of the machinery: their output must never replace the evidence of /repo itself
+EVIDENCE_DIR = (VERIF / "evidence") if str(REPO) == "/repo" else (VERIF / "evidence" / "replay" / "scratch-evidence")
+REPLAY_DIR = VERIF / "evidence" / "replay"
 KNOWN_FINDINGS_FILE = VERIF / "known_findings.json"
 WORKERS = int(os.environ.get("VERIF_WORKERS", "16"))
 
